@@ -242,6 +242,11 @@ def main(argv=None):
     if args.replay:
         return replay(mod, args.replay)
     ctx = Ctx(pid, args.tier, seed, getattr(mod, "LEVEL", "model_checking"))
+    import atexit
+    import shutil
+    base = "/dev/shm" if os.path.isdir("/dev/shm") and os.access("/dev/shm", os.W_OK) else "/tmp"
+    os.environ["WDMC_SCRATCH"] = os.path.join(base, f"wdmc-{os.getpid()}")
+    atexit.register(shutil.rmtree, os.environ["WDMC_SCRATCH"], True)
     try:
         mod.run(ctx)
         code = finish(ctx, rule=getattr(mod, "RULE", ""), assumptions=getattr(mod, "ASSUMPTIONS", ()))
